@@ -210,6 +210,11 @@ func execStale(c StaleCase) (res vt.Result) {
 		}
 	}
 	batchLetGo := false
+	// readerStraddled: the reader's search was running when the held batch was let go, so it may straddle
+	// the batch's commit. A search that straddles a commit can leave a cache built from its old snapshot
+	// registered as the shared cache - the known finding D5 (C09), which the next batch then builds on. What
+	// this job demands of the cache manager is demanded of searches that end before the batch goes on
+	readerStraddled := false
 	if held {
 		rec.Count("first_batch_held_inside_its_storage_transaction", 1)
 		// (a search on any shard of the node may have to wait for a batch that is held inside a flush: the
@@ -243,6 +248,7 @@ func execStale(c StaleCase) (res vt.Result) {
 			// that begins after that rightly sees its points)
 			var letGo atomic.Bool
 			letGo.Store(batchLetGo) // (the batch may have been let go already, for the search on the other shard)
+			readerStraddled = batchLetGo
 			go func() {
 				got, err := search(s)
 				if err == nil && !letGo.Load() && len(got) != c.Pre {
@@ -261,6 +267,7 @@ func execStale(c StaleCase) (res vt.Result) {
 				rec.Count("searches_during_the_held_batch", 1)
 			case <-time.After(300 * time.Millisecond):
 				letGo.Store(true)
+				readerStraddled = true
 				release(putGo)
 				if err := <-rd; err != nil {
 					release(gapGo)
@@ -381,6 +388,11 @@ func execStale(c StaleCase) (res vt.Result) {
 		return nil
 	}
 	if err := check("the running shard", s); err != nil {
+		if readerStraddled {
+			rec.Known("D5", "stalereplacement: a search that straddles the first batch's commit leaves a cache built from its old snapshot", err.Error())
+			rec.Count("cases_attributed_to_D5_search_straddled_the_commit", 1)
+			return vt.Result{}
+		}
 		return fail("%v", err)
 	}
 	path := s.Path
